@@ -264,12 +264,13 @@ class RefExecutor:
             if not (isinstance(a["pool"], int) and 0 <= a["pool"] < self.n):
                 raise Reject("bad-pool", a["pool"], "assignment")
 
-    def step(self, sus, asg, timeline_of, observed_failed=frozenset(), observed_mem=None):
+    def step(self, sus, asg, timeline_of, observed_failed=frozenset(), observed_mem=None, observed_raised=False):
         """Advance one tick. timeline_of(a) gives the unique timeline of an assignment.
         observed_failed: keys the implementation reported as failed in this tick (used only
         to resolve documented either-way cases). Returns list of (key, 'ok'|'oom')."""
         self.validate(sus, asg)
         results = []
+        self.same_tick_dependency = False
         self.new_keys = []
         self.pool_kill_info = []
         for pid, pool in enumerate(self.pools):
@@ -332,6 +333,16 @@ class RefExecutor:
                             self.opstate[op] = P
             # 4. running containers execute one tick, in creation order
             running = [rc for rc in pool.live if rc.status == "run"]
+            # operators that complete during this very tick (any pool): whether a child that starts in the same
+            # tick sees them completed depends on the order in which containers are advanced, which no property
+            # fixes - either outcome is admissible there (the log-order monitor still checks what was done)
+            completing_now = set()
+            for q in self.pools:
+                for rc2 in q.live:
+                    if rc2.status == "run" and rc2.pos < len(rc2.tl):
+                        t2 = rc2.tl[rc2.pos]
+                        if t2.done and cmp_over(t2.mem, rc2.ram, t2.lit) == "under":
+                            completing_now.add(rc2.ops[t2.op])
             for rc in running:
                 rc.boundary = False
                 rc.done_now = False
@@ -339,8 +350,13 @@ class RefExecutor:
                 t = rc.tl[rc.pos]
                 op = rc.ops[t.op]
                 if t.first and self.opstate[op] != R:
-                    for par in op.parents:
-                        if self.opstate.get(par) != C:
+                    missing = [par for par in op.parents if self.opstate.get(par) != C]
+                    if missing:
+                        if all(par in completing_now for par in missing):
+                            self.same_tick_dependency = True
+                            if observed_raised:
+                                raise Reject("dependency", pid, "parent completes in the same tick (order-dependent, either way admissible)")
+                        else:
                             raise Reject("dependency", pid, "operator would start before a parent completed")
                     assert self.opstate[op] == A, self.opstate[op]
                     self.opstate[op] = R
